@@ -51,9 +51,17 @@ SYN_MSGS = ['I> value = %u', 'E> Dev 0x%x: Fail count = %d', 'Cmd Data: 0x%08X',
             '%d %d %d %d %d %d', '100%% sure %u', 'bad %', 'x=%.4X y=%02u', '%s and %i']
 
 
+# a few hash values that come back in many string files (with another text, only as a partial match, or
+# not at all): what one file says about a hash must not colour the next decode of the process
+HASH_POOL = [100001, 200002, 1234567, 300003, 700001, 4100001, 2700002, 99999, 4294967295, 31234567]
+
+
 def synthetic_strings(rng):
     out = []
     base = rng.randrange(1, 99999)
+    for h in rng.sample(HASH_POOL, rng.choice([0, 0, 1, 2, 4])):
+        out.append(dict(hash=str(h), msg=rng.choice(SYN_MSGS) + ' (pool %d)' % rng.randrange(1000),
+                        loc='pool.cpp(%d)' % rng.randrange(1, 9999)))
     for k in range(rng.randint(1, 14)):
         r = rng.random()
         if r < .4:
@@ -80,6 +88,8 @@ def entry(rng, strings, kind=None):
     elif r < .8:
         h = (int(s['hash']) % 100000) + 100000 * rng.randrange(0, 42000)
         h &= 0xFFFFFFFF
+    elif r < .9:
+        h = rng.choice(HASH_POOL)
     else:
         h = rng.randrange(1 << 32)
     data = [rng.randrange(256) for _ in range(ln)]
@@ -139,7 +149,7 @@ def run_case(case):
             label = fname
         else:
             strings = synthetic_strings(rng)
-            path = os.path.join(d, 'strings_%d' % k)
+            path = os.path.join(d, 'strings_%d' % (k % 3))      # paths come back with other content
             with open(path, 'w') as f:
                 f.write(drawer.render_string_file(rng, strings))
             label = 'synthetic'
